@@ -224,16 +224,16 @@ def run(ctx):
     for k, (name, data) in enumerate(files):
       rid += 1
       jobs.append((fmt, name, data, [], seedbase + rid, None, rid))               # the unmodified file
-      use_singles = singles if (thorough or k < 3) else ctx.rng.sample(singles, 30)
+      use_singles = singles if (thorough or k < 2) else ctx.rng.sample(singles, 20)
       for fs in use_singles:
         for cfg in (cfgs.get(fmt, [None]) if k == 0 else [None]):
           rid += 1
           jobs.append((fmt, name, data, fs, seedbase + rid, cfg, rid))
-      npairs = (len(pairs) if k < 2 else 600) if thorough else (120 if k < 2 else 25)
+      npairs = (len(pairs) if k < 2 else 600) if thorough else (60 if k < 2 else 10)
       for fs in (pairs if npairs >= len(pairs) else ctx.rng.sample(pairs, npairs)):
         rid += 1
         jobs.append((fmt, name, data, fs, seedbase + rid, None, rid))
-      for _ in range(400 if thorough else 40):
+      for _ in range(400 if thorough else 20):
         rid += 1
         jobs.append((fmt, name, data, "bytes", seedbase + rid, None, rid))
   # degenerate inputs
